@@ -209,6 +209,25 @@ func propG(c GCase) error {
 		if d := diffJSON(exp, bm); d != "" {
 			return fmt.Errorf("round trip differs: %s\n%s", d, clip(string(data)))
 		}
+		// the decoded geometry owns its coordinates: the caller overwrites the byte slice it
+		// handed over and the geometry stays what it was
+		{
+			buf := append([]byte(nil), data...)
+			var dg geom.T
+			if err := geojson.Unmarshal(buf, &dg); err != nil {
+				return fmt.Errorf("geojson.Unmarshal of a copy of the document: %v", err)
+			}
+			for i := range buf {
+				buf[i] = '#'
+			}
+			dm, err := model.FromGeom(dg)
+			if err != nil {
+				return fmt.Errorf("decoded geometry not well formed: %v", err)
+			}
+			if d := diffJSON(exp, dm); d != "" {
+				return fmt.Errorf("the geometry returned by geojson.Unmarshal changed when the caller overwrote the bytes it was decoded from: %s", d)
+			}
+		}
 		// what Unmarshal returned is the caller's: another document decoded afterwards changes nothing in it
 		for _, o := range []string{`{"type":"LineString","coordinates":[[1,2,3],[4,5,6],[7,8,9]]}`, `{"type":"MultiPolygon","coordinates":[[[[0,0],[9,0],[9,9],[0,0]]]]}`, `{"type":"Point","coordinates":[7,7]}`} {
 			var og geom.T
